@@ -563,6 +563,34 @@ theorem stacktrace_is_callsites {es : List Ev} {sites : List Pos} (h : Active es
   · intro pos; simp [reported, hs]
   · intro p rest hp; subst hp; simp [reported, hs]
 
+/-- **After `RESUME label`.** Whatever ran before (`pre`, including calls that were never returned from
+because an error inside them was handled), once `ResumeLabel` has executed the trace of a later unhandled
+error lists exactly the call sites entered *since*: the abandoned procedures' call sites are gone. -/
+theorem stacktrace_after_resume_label {pre es : List Ev} {st sites : List Pos}
+    (hpre : runStack [] pre = some st) (h : Active es sites) :
+    (∀ pos, reported (pre ++ Ev.clear :: es) (Fault.instr pos) = some (pos :: sites)) ∧
+    (∀ p rest, sites = p :: rest → reported (pre ++ Ev.clear :: es) Fault.builtIn = some (p :: rest)) := by
+  have hs := stack_is_active_callsites h
+  have hrun : runStack [] (pre ++ Ev.clear :: es) = some sites := by
+    rw [runStack_append, hpre]
+    simp [runStack, stepStack, hs]
+  constructor
+  · intro pos; simp [reported, hrun]
+  · intro p rest hp; subst hp; simp [reported, hrun]
+
+/-- **A handled built-in failure** leaves the trace as it was before the built-in was entered: its own
+`PushStack` entry is dropped (`abandon_failed_call`), so later errors do not list it. -/
+theorem handled_builtin_failure_leaves_no_entry (st : List Pos) (p : Pos) (body : List Ev) (hb : Balanced body) :
+    runStack st (Ev.push p :: (body ++ [Ev.dropFront])) = some st := by
+  simp only [runStack, stepStack]
+  rw [runStack_append, balanced_runStack hb]
+  simp [runStack, stepStack]
+
+/-- main calls at (6,1) → (18,5); the error there is handled by `RESUME label`; then main calls at (10,1)
+and the statement at (27,11) fails: only the second call site is listed. -/
+example : reported [Ev.push (6, 1), Ev.other, Ev.push (18, 5), Ev.other, Ev.other, Ev.clear, Ev.other,
+    Ev.push (10, 1), Ev.other] (Fault.instr (27, 11)) = some [(27, 11), (10, 1)] := by decide
+
 /-- A `PopStack` never meets an empty vector in a run where calls are properly nested. -/
 theorem pop_never_underflows {es : List Ev} {sites : List Pos} (h : Active es sites) :
     runStack [] es ≠ none := by
